@@ -64,6 +64,21 @@ def main():
         if rc != 0 or got != want:
             fails += 1
             print('FAIL label=%s program=%s detail=printed %s, expected %s' % (lab, json.dumps(src), got, want))
+    # ---- construction order: base constructor chain, then this class's field initialisers, then its constructor body
+    NOTE = 'function note(string s) -> int { echo(s); return 1; }\n'
+    for exp_super in (False, True):
+        sup = 'super(); ' if exp_super else ''
+        src = (NOTE + 'class Base { public int bf = note("Base.field"); public constructor() -> Base { echo("Base.ctor"); } }\n'
+               'class Mid extends Base { public int mf = note("Mid.field"); public constructor() -> Mid { %secho("Mid.ctor"); } }\n'
+               'class Leaf extends Mid { public int lf = note("Leaf.field"); public constructor() -> Leaf { %secho("Leaf.ctor"); } }\n'
+               'function main() -> void { Leaf l = new Leaf(); echo("done"); Mid m = new Mid(); echo("done2"); }\n') % (sup, sup)
+        want = ['Base.field', 'Base.ctor', 'Mid.field', 'Mid.ctor', 'Leaf.field', 'Leaf.ctor', 'done', 'Base.field', 'Base.ctor', 'Mid.field', 'Mid.ctor', 'done2']
+        rc, out = run(bloch, src); n += 1
+        got = [l.strip() for l in out.strip().split('\n') if l.strip()]
+        if rc != 0 or got != want:
+            fails += 1
+            lab = 'construction.base_constructor_chain_runs_first' if sorted(got) == sorted(want) else 'construction.field_initialisers_once_before_the_body'
+            print('FAIL label=%s program=%s detail=explicit super=%s: printed %s, expected %s' % (lab, json.dumps(src), exp_super, got, want))
     print(json.dumps(dict(oracle_checks=n, oracle_failures=fails)))
     sys.exit(1 if fails else 0)
 main()
